@@ -24,6 +24,8 @@ import (
 	"github.com/pinealctx/neptune/store/gormx"
 	"github.com/pinealctx/neptune/ulog"
 	"go.uber.org/zap"
+	"go.uber.org/zap/zapcore"
+	gomysql "github.com/go-sql-driver/mysql"
 	"gorm.io/driver/mysql"
 	"gorm.io/gorm"
 	"gorm.io/gorm/logger"
@@ -46,6 +48,7 @@ var Prop = &engine.Prop{
 		"\"finished exactly once\" is judged at the server: Commit/Rollback attempts that database/sql itself answers with ErrTxDone never reach the driver and are not counted there; the gormpool set-up (a gorm.ConnPool / ConnPoolBeginner / TxCommitter of the harness instead of database/sql) logs every finish attempt gorm makes",
 		"a refused commit ends the transaction (the fake server forgets it), as MySQL does after a failed COMMIT on a lost connection",
 		"panic(nil) and runtime.Goexit inside a step are not generated (panic(nil) depends on the main module's GODEBUG default); nil step functions and a db that already carries an error are misuse and not generated",
+		"the module's default logger (ulog) is a production-style or a development-style zap logger writing nowhere, chosen per case (always development-style in the prepstmt set-up); failing steps also use MySQL driver errors (1213 deadlock, 1205 lock wait timeout, 1062, 1040, ErrInvalidConn) and runtime panics (nil map write, index out of range, nil dereference)",
 		"kind handles (Transact on a handle that is already a transaction, on a handle whose context is or gets cancelled, steps that finish the transaction themselves) is outside the stated fault space: only 'nil result => the server accepted a commit during the call', 'no accepted begin => no step ran' and 'no panic escapes' are judged there",
 		"begin/commit failure: the statement only promises a non-nil result; whether the result wraps the driver's error is counted (begin_error_identity, commit_error_identity), not judged",
 	},
@@ -119,12 +122,15 @@ const (
 	lPanicInt                       // panic(int)
 	lPanicStruct                    // panic(struct value)
 	lErrWrapped                     // returns fmt.Errorf("...%w", E)
+	lPanicNilMap                    // runtime panic: write into a nil map
+	lPanicIndex                     // runtime panic: index out of range
+	lPanicNilDeref                  // runtime panic: nil pointer dereference
 )
 
 // the enumerated alphabet is the first four kinds
 const nBaseKinds = 4
 
-var leafNames = [...]string{"ok", "err", "pstr", "perr", "ok0", "ok2", "xrefused", "xswallow", "x+err", "x+pstr", "pint", "pstruct", "errw"}
+var leafNames = [...]string{"ok", "err", "pstr", "perr", "ok0", "ok2", "xrefused", "xswallow", "x+err", "x+pstr", "pint", "pstruct", "errw", "pnilmap", "pindex", "pnilptr"}
 
 func (lk leafKind) fails() bool {
 	switch lk {
@@ -136,7 +142,7 @@ func (lk leafKind) fails() bool {
 
 func (lk leafKind) panics() bool {
 	switch lk {
-	case lPanicStr, lPanicErr, lPanicAfterExec, lPanicInt, lPanicStruct:
+	case lPanicStr, lPanicErr, lPanicAfterExec, lPanicInt, lPanicStruct, lPanicNilMap, lPanicIndex, lPanicNilDeref:
 		return true
 	}
 	return false
@@ -231,6 +237,11 @@ var sentinelErrors = []error{
 	driver.ErrBadConn,
 	gorm.ErrInvalidTransaction,
 	gorm.ErrDuplicatedKey,
+	&gomysql.MySQLError{Number: 1213, Message: "Deadlock found when trying to get lock; try restarting transaction"},
+	&gomysql.MySQLError{Number: 1205, Message: "Lock wait timeout exceeded; try restarting transaction"},
+	&gomysql.MySQLError{Number: 1062, Message: "Duplicate entry"},
+	&gomysql.MySQLError{Number: 1040, Message: "Too many connections"},
+	gomysql.ErrInvalidConn,
 }
 
 // stepError returns the error value of a failing step.
@@ -292,6 +303,18 @@ func (l *leaf) fn(srv *server) gormx.GormProcFn {
 		case lPanicStruct:
 			l.payload = panicPayload{Leaf: l.idx, Why: "c18-struct-payload"}
 			panic(l.payload)
+		case lPanicNilMap:
+			l.payload = "assignment to entry in nil map"
+			var m map[int]int
+			m[l.idx] = 1
+		case lPanicIndex:
+			l.payload = "index out of range"
+			var a []int
+			_ = a[l.idx+3]
+		case lPanicNilDeref:
+			l.payload = "nil pointer dereference"
+			var pp *panicPayload
+			_ = pp.Leaf
 		case lErrWrapped:
 			l.returned = l.stepError(fmt.Errorf("c18-step%d-wrapper: %w", l.idx, errors.New("c18-inner")), true)
 			return l.returned
@@ -605,7 +628,22 @@ type caseState struct {
 
 func newState(k *engine.Case) *caseState { return newStateMode(k, modeSQL) }
 
+var (
+	nopLogger = &ulog.Logger{Logger: zap.NewNop()}
+	// a development-mode logger (DPanic-level entries panic) that writes nowhere
+	devLogger = &ulog.Logger{Logger: zap.New(zapcore.NewNopCore(), zap.Development())}
+)
+
 func newStateMode(k *engine.Case, mode envMode) *caseState {
+	// the module logs through the process-wide default logger: production-style or development-style
+	// (always development-style in the prepstmt set-up, so that every run has the enumerated
+	// blocks under both)
+	if mode == modePrepStmt || k.R.Intn(3) == 0 {
+		ulog.SetDefaultLogger(devLogger)
+		k.Count("cases_with_development_logger", 1)
+	} else {
+		ulog.SetDefaultLogger(nopLogger)
+	}
 	st := &caseState{k: k, mode: mode, failed: map[string]int{}}
 	st.fresh()
 	return st
@@ -946,7 +984,7 @@ func randomProgram(k *engine.Case, maxLeaves int) *program {
 		nl = 0
 	}
 	okKinds := []leafKind{lOK, lOK, lOK, lOK2Exec, lOKNoExec, lExecSwallowed}
-	badKinds := []leafKind{lErr, lPanicStr, lPanicErr, lExecRefused, lErrAfterExec, lPanicAfterExec, lPanicInt, lPanicStruct, lErrWrapped}
+	badKinds := []leafKind{lErr, lPanicStr, lPanicErr, lExecRefused, lErrAfterExec, lPanicAfterExec, lPanicInt, lPanicStruct, lErrWrapped, lPanicNilMap, lPanicIndex, lPanicNilDeref}
 	pBad := []int{0, 8, 4, 2}[r.Intn(4)] // 0: never, else 1/pBad per leaf
 	leaves := make([]*node, nl)
 	flavours := make([]int, nl)
